@@ -134,6 +134,14 @@ CHECKS = {
         "note": "Trusted: TLC; spec/CmdExe.tla as the statement of cmd.exe's documented rules (a model, not cmd.exe); harness/batparse.go as the splitter of emitted lines into commands and segments.",
         "technique": "TLA+ model of cmd.exe executing the real emitted Batch script in TLC, compared with the TLA+ reference semantics",
     },
+    "C09": {
+        "text": "spec/TshModules.tla states linking: files visited depth first in import order, each file once, every name qualified by its file, alias.Name resolving to the public function of the "
+                "aliased file, private/undefined/unknown-alias calls static errors. TLC links every import graph of spec/FamC09.tla (single, pair, chain, diamonds, two aliases, std + local, "
+                "repeated imports followed by top-level code) x content kinds x hash-prefix class, checks the result with TshStatic and validates the recorded Bash run of the real multi-file "
+                "program against TshDyn on the linked program (a removed function shows as stderr output); verdicts are compared for both targets.",
+        "note": TRUST + " Calls into the bundled std library are replaced in the model program by the values of spec/GoStrings.tla.",
+        "technique": "TLA+ linking function (TshModules) + static check + trace validation of real multi-file runs against the TLA+ machine on the linked program",
+    },
 }
 
 NOT_APPLICABLE = {}
